@@ -35,7 +35,8 @@ def fit_case(draw, accuracy=None):
         W = np.maximum(np.asarray(W, dtype=float), 0.3).tolist()
     return dict(system=sysd, rows=rows, W=W, entry=draw(st.sampled_from(["function", "estimator"])),
                 accuracy=(draw(st.sampled_from(["default", "default", "high"])) if accuracy is None else accuracy),
-                layout=draw(st.sampled_from(["C", "C", "F", "strided"])), proportional=_prop)
+                layout=draw(st.sampled_from(["C", "C", "F", "strided"])), proportional=_prop,
+                form=draw(st.sampled_from([None, None, None, "list"])))
 
 
 def run_fit(sv: Sys, B, W, entry, opt):
@@ -71,7 +72,7 @@ def body_fit(case):
     opt = dict(HIGH_ACC) if acc == "high" else {}
     tol = TOL[acc]
     B0 = B.copy()
-    X, Bp = run_fit(sv, B, W, case["entry"], opt)
+    X, Bp = run_fit(sv, (gens.as_form(B, case["form"]) if case.get("form") else B), W, case["entry"], opt)
     labs = sv.labels() + [f"entry:{case['entry']}", f"acc:{acc}", "W:" + ("none" if W is None else ("vector" if np.ndim(W) == 1 else "matrix"))] + (["proportional-sources"] if case.get("proportional") else [])
     check(np.array_equal(B, B0), "fit:targets-modified", "fit modified the caller's target array")
     # (a) shapes
